@@ -30,8 +30,9 @@ def unit_manifest(uid):
     return json.load(open(os.path.join(unit_dir(uid), "unit.json")))
 
 
-def run_unit(uid, tier, only=None):
-    """returns list of backend results (dicts) or raises Undecided"""
+def run_unit(uid, tier, only=None, undecided_out=None):
+    """returns list of backend results (dicts) or raises Undecided; with undecided_out (a list) a back end that is undecided is recorded there
+    as (uid, reason) and the other back ends of the unit still run"""
     ud = unit_dir(uid)
     mf = unit_manifest(uid)
     jobs = []
@@ -45,25 +46,29 @@ def run_unit(uid, tier, only=None):
         if only in (None, "scan"): jobs.append(("scan", sc))
     results = []
     for kind, spec in jobs:
-        if kind == "verus":
-            name = spec if isinstance(spec, str) else spec["tmpl"]
-            r = B.run_verus(uid, ud, name, rlimit=(None if isinstance(spec, str) else spec.get("rlimit")))
-            minv = mf.get("min_verified", {}).get(name, 1)
-            if r["obligations"] < minv:
-                raise Undecided(uid, "vacuity guard: verus reports %d obligations < committed minimum %d" % (r["obligations"], minv))
-        elif kind == "native":
-            r = B.run_native(uid, ud, spec, tier)
-        elif kind == "scan":
-            from vf.scans import run_scan
-            r = run_scan(uid, spec)
-        else:
-            r = B.run_kani(uid, ud, spec, tier)
-        allowed = mf.get("trusted_allow", [])
-        missing = [re.sub(r"@gen:\d+ ", "", t) for t in r["trusted"] if re.sub(r"@gen:\d+ ", "", t) not in allowed]
-        if missing:
-            raise Undecided(uid, "trusted constructs not on the unit's allow-list: %s" % json.dumps(sorted(set(missing))))
-        r["title"] = mf.get("title", "")
-        results.append(r)
+      try:
+          if kind == "verus":
+              name = spec if isinstance(spec, str) else spec["tmpl"]
+              r = B.run_verus(uid, ud, name, rlimit=(None if isinstance(spec, str) else spec.get("rlimit")))
+              minv = mf.get("min_verified", {}).get(name, 1)
+              if r["obligations"] < minv:
+                  raise Undecided(uid, "vacuity guard: verus reports %d obligations < committed minimum %d" % (r["obligations"], minv))
+          elif kind == "native":
+              r = B.run_native(uid, ud, spec, tier)
+          elif kind == "scan":
+              from vf.scans import run_scan
+              r = run_scan(uid, spec)
+          else:
+              r = B.run_kani(uid, ud, spec, tier)
+          allowed = mf.get("trusted_allow", [])
+          missing = [re.sub(r"@gen:\d+ ", "", t) for t in r["trusted"] if re.sub(r"@gen:\d+ ", "", t) not in allowed]
+          if missing:
+              raise Undecided(uid, "trusted constructs not on the unit's allow-list: %s" % json.dumps(sorted(set(missing))))
+          r["title"] = mf.get("title", "")
+          results.append(r)
+      except Undecided as e:
+        if undecided_out is None: raise
+        undecided_out.append((uid, "%s back end: %s" % (kind, e.reason)))
     return results
 
 
@@ -75,6 +80,10 @@ def load_known():
             if ln.startswith("finding:"):
                 d = {}
                 body = ln[len("finding:"):].strip()
+                if body.startswith("{"):   # JSON form, for obligations / inputs that hold double quotes
+                    d = json.loads(body)
+                    known.append({"property": d["property"], "unit": d["unit"], "obligation": d["obligation"], "input": d["input"], "what": d.get("what", "")})
+                    continue
                 m = re.match(r"property=(\S+)\s+unit=(\S+)\s+obligation=\"(.*?)\"\s+input=\"(.*?)\"\s*(.*)$", body)
                 if m:
                     known.append({"property": m.group(1), "unit": m.group(2), "obligation": m.group(3), "input": m.group(4), "what": m.group(5)})
@@ -93,7 +102,7 @@ def check(pid, tier):
     units = [u["unit"] for u in unit_specs]
     filt = {u["unit"]: u for u in unit_specs}
     with cf.ThreadPoolExecutor(max_workers=min(6, len(units))) as ex:
-        futs = {ex.submit(run_unit, u, tier): u for u in units}
+        futs = {ex.submit(run_unit, u, tier, None, undecided): u for u in units}
         for f in cf.as_completed(futs):
             u = futs[f]
             try:
